@@ -122,6 +122,10 @@ pub(crate) struct StandaloneReadHandle {
     pub(crate) read_tx: Option<mpsc::Sender<ReadCmd>>,
     /// Raft command channel for the cmd_tx fallback path.
     pub(crate) cmd_tx: mpsc::Sender<d_engine_core::ClientCmd>,
+    /// `read_consistency.allow_client_override` of the node. When false the policy the client
+    /// names must not be honoured, so the ReadActor fast path is off and every read goes to the
+    /// Raft loop, which serves it under the server's default policy.
+    pub(crate) client_override_allowed: bool,
 }
 
 impl StandaloneReadHandle {
@@ -130,7 +134,20 @@ impl StandaloneReadHandle {
         read_tx: Option<mpsc::Sender<ReadCmd>>,
         cmd_tx: mpsc::Sender<d_engine_core::ClientCmd>,
     ) -> Self {
-        Self { read_tx, cmd_tx }
+        Self {
+            read_tx,
+            cmd_tx,
+            client_override_allowed: true,
+        }
+    }
+
+    /// Tell the handle whether the server honours client-chosen read policies.
+    pub(crate) fn with_client_override(
+        mut self,
+        allowed: bool,
+    ) -> Self {
+        self.client_override_allowed = allowed;
+        self
     }
 
     /// Route a single-key read. Convenience wrapper around [`Self::get_batch`].
@@ -173,6 +190,7 @@ impl StandaloneReadHandle {
     ) -> ClientApiResult<Vec<Option<Bytes>>> {
         // Fast path: Eventual and LeaseRead bypass cmd_tx via ReadActor.
         if let Some(read_tx) = &self.read_tx
+            && self.client_override_allowed
             && matches!(
                 consistency,
                 ReadConsistencyPolicy::EventualConsistency | ReadConsistencyPolicy::LeaseRead
